@@ -306,9 +306,22 @@ def features(hy, tree):
             if _head(hy, x) in ("unpack-iterable", "unpack-mapping") and len(x) == 2 and constant_like(x[1]):
                 return True
         return False
-    # where the recorded defect lives: the name of a deftype, and binding positions of match patterns
+    def tp_const(n):
+        """a type-parameter name (:tp [T  #^ bound T  #* Ts  #** P]) of defn / fn / defclass / deftype that is a constant name"""
+        if not isinstance(n, m.Expression):
+            return False
+        kids = list(n)
+        for a, b in zip(kids, kids[1:]):
+            if isinstance(a, m.Keyword) and a.name == "tp" and isinstance(b, m.List):
+                for x in b:
+                    if constant_like(x):
+                        return True
+                    if _head(hy, x) in ("annotate", "unpack-iterable", "unpack-mapping") and len(x) >= 2 and constant_like(x[1]):
+                        return True
+        return False
+    # where the recorded defect lives: the name of a deftype, type-parameter names, and binding positions of match patterns
     # ... and any name that only *normalises* to a constant name (_nonconst tests the unmangled text)
-    f["constant_name_in_deftype_or_pattern"] = any(deftype_const(n) or match_const(n) or variant(n) for n in nodes)
+    f["constant_name_in_deftype_or_pattern"] = any(deftype_const(n) or tp_const(n) or match_const(n) or variant(n) for n in nodes)
     f["class_pattern_head"] = any(_head(hy, n) == "match" for n in nodes) and any(
         isinstance(n, m.Expression) and n and (isinstance(n[0], m.Expression) or str(n[0]) in ("None", "True", "False"))
         for n in nodes) or any(_head(hy, n) == "match" for n in nodes) and any(
